@@ -353,7 +353,7 @@ impl Gen {
                 } else if self.rng.chance(15) {
                     (vec![], vec![pool(self)], 1u8)
                 } else {
-                    let lane = 1 + self.rng.below(2) as u8;
+                    let lane = 1 + self.rng.below(3) as u8;
                     let mut r = if self.rng.chance(20) { vec![(lane, 1)] } else { vec![] };
                     for _ in 0..self.rng.below(5) {
                         let x = pool(self);
@@ -361,7 +361,9 @@ impl Gen {
                             r.push(x);
                         }
                     }
-                    (r, vec![(lane, 0)], 1u8)
+                    // mostly very short; an occasional long member lets a group overshoot the stage maximum
+                    let t = if self.rng.chance(15) { 5u8 } else { 1u8 };
+                    (r, vec![(lane, 0)], t)
                 };
                 v.push(Op::Sys { tag, name: name.clone(), deps, r, w, t });
             } else {
